@@ -39,6 +39,23 @@ class Boom(Exception):
     """The *unexpected* resolver exception."""
 
 
+# The unexpected exception is raised with a VARIETY of classes: classes that the machinery itself catches somewhere
+# (IndexError around `args.pop(0)`, KeyError around caches, ...) are where a slip would swallow a resolver's exception.
+# (StopIteration is left out: Python itself rewrites it to RuntimeError inside coroutines and asyncio futures refuse it.)
+UNEXPECTED_CLASSES = (Boom, IndexError, KeyError, AttributeError, TypeError, ValueError, RuntimeError, LookupError,
+                      ZeroDivisionError, AssertionError, OSError, NotImplementedError)
+
+
+CLASS_SALT = 0      # rotated by the checker so that every field position sees every class
+
+
+def make_unexpected(path):
+    cls = UNEXPECTED_CLASSES[(sum(map(ord, str(path))) + CLASS_SALT) % len(UNEXPECTED_CLASSES)]
+    err = cls("harness-unexpected at %r" % (path,))
+    err._harness_unexpected = True
+    return err
+
+
 class Watchdog(BaseException):
     """Raised by the SIGALRM watchdog: the code under test blocked."""
 
@@ -390,7 +407,7 @@ class World:
                 raise _resolver_error_cls()("resolver error at %r" % (path,))
             if fo["r"] == "exc":
                 self.boom_raised += 1
-                raise Boom(path)
+                raise make_unexpected(path)
             return py_value(f["ty"], fo["v"])
         finally:
             self.ev("done", path)
@@ -415,14 +432,14 @@ class ManualExecutor:
     def __init__(self, world):
         self.world = world
 
-    def submit(self, fn, *args, **kwargs):
+    def submit(self, fn, /, *args, **kwargs):
         e = _Entry()
         e.fn, e.args, e.kwargs = fn, args, kwargs
         e.fut = Future()
         if len(args) >= 3 and hasattr(args[2], "path"):
             e.path, e.stage = tuple(args[2].path), 1
             self.world.ev("call", e.path)
-            if self.world.table[e.path][0]["mode"] == "ready":
+            if self.world.table.get(e.path, ({"mode": "deferred"},))[0]["mode"] == "ready":
                 # the pool ran the task at once: the executor receives an already finished Future
                 try:
                     r = fn(*args, **kwargs)
@@ -581,7 +598,7 @@ def canon_errors(errors):
 
 
 def exc_name(err):
-    if isinstance(err, Boom):
+    if isinstance(err, Boom) or getattr(err, "_harness_unexpected", False):
         return "Boom"
     if isinstance(err, RuntimeError):
         return "RuntimeError"
